@@ -197,10 +197,14 @@ def draw_client_ops(st, n_ops, hot):
             pure = bool(st.draw(2))
             n = st.int_range(d if pure else 2, 6)
             w = [1 + st.draw(8) for _ in range(n)]
-            ops.append({"op": "pgm", "d": d, "n": n, "pure": pure, "weights": w, "uniform_default": bool(st.draw(4) == 0), "seed": SEED_POOL[st.draw(len(SEED_POOL))], "bad": bool(st.draw(2)), "form": st.draw(3), "probs_array": bool(st.draw(3) == 0)})
+            tiny = None
+            if st.draw(4) == 0:
+                # spanning but ill-conditioned: one state (needed for spanning when n = d) carries a tiny prior
+                tiny = [1e-4, 1e-5, 1e-6][st.draw(3)]
+            ops.append({"op": "pgm", "d": d, "n": n, "pure": pure, "weights": w, "uniform_default": bool(st.draw(4) == 0), "seed": SEED_POOL[st.draw(len(SEED_POOL))], "bad": bool(st.draw(2)), "form": st.draw(3), "probs_array": bool(st.draw(3) == 0), "tiny_prior": tiny})
         else:
             d = st.int_range(1, 4)
-            ops.append({"op": "measure", "d": d, "mkind": st.choice(["povm_sqrt", "projective", "single", "incomplete", "isometric"]), "outs": st.int_range(2, 4), "update": bool(st.draw(2)), "as_tuple": bool(st.draw(3) == 0), "seed": SEED_POOL[st.draw(len(SEED_POOL))]})
+            ops.append({"op": "measure", "d": d, "mkind": st.choice(["povm_sqrt", "projective", "single", "incomplete", "isometric"]), "outs": st.int_range(2, 4), "update": bool(st.draw(2)), "as_tuple": bool(st.draw(3) == 0), "seed": SEED_POOL[st.draw(len(SEED_POOL))], "state_form": st.weighted([("complex", 3), ("real", 2), ("int_basis", 1), ("real_pure", 1)])})
     return ops
 
 
@@ -488,7 +492,7 @@ def expand_gen_calls(op):
             return [("random_states", {"n": op["n"], "d": op["d"]}, op["seed"], "int")]
         return [("random_density_matrix", {"dim": op["d"], "is_real": False, "k_param": None, "distance_metric": "haar"}, (op["seed"] + j) % (2**32), "int") for j in range(op["n"])]
     if op["op"] == "measure":
-        calls = [("random_density_matrix", {"dim": op["d"], "is_real": False, "k_param": None, "distance_metric": "haar"}, op["seed"], "int")]
+        calls = [("random_density_matrix", {"dim": op["d"], "is_real": op.get("state_form", "complex") != "complex", "k_param": None, "distance_metric": "haar"}, op["seed"], "int")]
         if op["mkind"] in ("povm_sqrt", "incomplete", "isometric"):
             calls.append(("random_povm", {"dim": op["d"], "num_inputs": 1, "num_outputs": op["outs"]}, op["seed"], "int"))
         else:
@@ -512,8 +516,11 @@ def exec_op(R, pgm_f, pbm_f, measure_f, op, live=None):
             states = [np.asarray(v).reshape(-1) for v in states]
         elif op["pure"] and form == 2:  # kets and density matrices mixed in one list
             states = [v if j % 2 == 0 else v @ v.conj().T for j, v in enumerate(states)]
-        tot = float(sum(op["weights"]))
-        probs = None if op["uniform_default"] else [w / tot for w in op["weights"]]
+        wts = [float(x) for x in op["weights"]]
+        if op.get("tiny_prior") and not op["uniform_default"]:
+            wts[-1] = op["tiny_prior"] * sum(wts[:-1])
+        tot = float(sum(wts))
+        probs = None if op["uniform_default"] else [w / tot for w in wts]
         if probs is not None and op.get("probs_array"):
             probs = np.array(probs)
         out["states"], out["probs"] = states, probs
@@ -532,6 +539,16 @@ def exec_op(R, pgm_f, pbm_f, measure_f, op, live=None):
             return out
         rho = objs[0][1]
         d = op["d"]
+        form = op.get("state_form", "complex")
+        if form == "real":
+            rho = np.real(rho).copy()  # a real density matrix held in a float array
+        elif form == "int_basis":
+            rho = np.zeros((d, d), dtype=int)  # a computational-basis state held in an integer array
+            rho[op["seed"] % d, op["seed"] % d] = 1
+        elif form == "real_pure":
+            vv = np.real(rho[:, 0]).copy()
+            vv = vv / np.linalg.norm(vv) if np.linalg.norm(vv) > 0 else np.eye(d)[0]
+            rho = np.outer(vv, vv)
         if op["mkind"] in ("povm_sqrt", "incomplete", "isometric"):
             povm = objs[1][1]
             kraus = [models.psd_sqrt(povm[:, :, 0, a]) for a in range(povm.shape[3])]
@@ -606,17 +623,24 @@ def check_pgm(res, op, out, tier, cs):
     rhos = [models.to_dm(s) for s in states]
     avg = sum(pi * r for pi, r in zip(p, rhos))
     lam_min = float(np.linalg.eigvalsh(avg)[0])
-    if lam_min < 1e-6:
+    if lam_min < 1e-8:
         res.probe("pgm_nonspanning_skipped")
         return
+    if lam_min < 1e-4:
+        res.probe("pgm_ill_conditioned_spanning")
     res.probe("pgm_checked")
     res.checks_workload += 1
     if out["pgm"][0] != "ok":
         res.violate("C19.pgm.povm", why="exception", exc=out["pgm"][1], msg=out["pgm"][2], n=n, d=op["d"], pure=op["pure"], lam_min=lam_min)
         return
     M = out["pgm"][1]
-    slack = 1e-7 / max(lam_min, 1e-6)
+    # rounding of rho^{-1/2} grows like eps / lam_min (observed on the clean tree: about 1e-9 at lam_min = 1e-7)
+    slack = 1e-7 + 2e-12 / lam_min
     why = models.povm_violation(M, op["d"], n, slack)
+    try:
+        res.margin("pgm_sum_minus_identity", float(np.max(np.abs(sum(M) - np.eye(op["d"])))) / slack)
+    except Exception:
+        pass
     if why:
         res.violate("C19.pgm.povm", why=why, n=n, d=op["d"], pure=op["pure"], lam_min=lam_min)
         return
